@@ -110,7 +110,6 @@ enum Kind {
 }
 enum Phase {
     Idle,
-    Emit(Vec<u8>, usize, Box<Phase>),
     NextBlock(u64),
     WaitTok(bool, u64),
     Recv(bool, u64, Vec<u8>),
@@ -129,6 +128,7 @@ struct Card {
     reading: bool,
     tick: u64,
     fbuf: Vec<u8>,
+    out: std::collections::VecDeque<u8>,
     phase: Phase,
     // fault options (not part of a legal card)
     wres: Option<u8>,
@@ -193,10 +193,14 @@ impl Card {
             }
         }
     }
+    fn set_out(&mut self, v: Vec<u8>, nxt: Phase) {
+        self.out = v.into();
+        self.phase = nxt;
+    }
     fn respond(&mut self, k: u64, resp: Vec<u8>, nxt: Phase) {
         let mut v = vec![0xFF; self.t(0, k)];
         v.extend(resp);
-        self.phase = Phase::Emit(v, 0, Box::new(nxt));
+        self.set_out(v, nxt);
     }
     fn exec(&mut self, cmd: u8, arg: u32) {
         let k = self.tick;
@@ -221,7 +225,14 @@ impl Card {
             v.extend(vec![0xFF; self.t(0, k)]);
             v.push(self.r1(0));
             v.extend(vec![0u8; self.t(3, k)]);
-            self.phase = Phase::Emit(v, 0, Box::new(Phase::Idle));
+            self.set_out(v, Phase::Idle);
+            return;
+        }
+        if cmd == 12 && matches!(self.phase, Phase::WaitTok(true, _)) {
+            let mut v = vec![0xFF; self.t(0, k)];
+            v.push(self.r1(0));
+            v.extend(vec![0u8; self.t(3, k)]);
+            self.set_out(v, Phase::Idle);
             return;
         }
         let illegal = vec![self.r1(4)];
@@ -283,15 +294,17 @@ impl Card {
             _ if self.idle => self.respond(k, illegal, Phase::Idle),
             23 if was_app => self.respond(k, vec![0], Phase::Idle),
             9 => {
-                let mut d = vec![0xFF; self.t(1, k)];
+                let mut d = vec![0u8];
+                d.extend(vec![0xFF; self.t(1, k)]);
                 d.extend(Card::packet(&self.csd));
-                self.respond(k, vec![0], Phase::Emit(d, 0, Box::new(Phase::Idle)))
+                self.respond(k, d, Phase::Idle)
             }
             17 => match self.decode_addr(arg) {
                 Ok(b) => {
-                    let mut d = vec![0xFF; self.t(1, k)];
+                    let mut d = vec![0u8];
+                    d.extend(vec![0xFF; self.t(1, k)]);
                     d.extend(Card::packet(&self.block(b)));
-                    self.respond(k, vec![0], Phase::Emit(d, 0, Box::new(Phase::Idle)))
+                    self.respond(k, d, Phase::Idle)
                 }
                 Err(e) => self.respond(k, vec![e], Phase::Idle),
             },
@@ -322,32 +335,9 @@ impl Card {
             self.tick += 1;
             let mut v = vec![0xFF; self.t(0, k)];
             v.push(self.r1(8));
-            let nxt = if self.reading { std::mem::replace(&mut self.phase, Phase::Idle) } else { Phase::Idle };
-            self.phase = Phase::Emit(v, 0, Box::new(nxt));
+            self.out = v.into();
         } else {
             self.exec(cmd, arg);
-        }
-    }
-    fn settle(&mut self) {
-        for _ in 0..4 {
-            match &mut self.phase {
-                Phase::Emit(v, pos, nxt) if *pos >= v.len() => {
-                    let n = std::mem::replace(&mut **nxt, Phase::Idle);
-                    self.phase = n;
-                }
-                Phase::NextBlock(b) => {
-                    let b = *b;
-                    if b < self.nblocks() {
-                        let k = self.tick;
-                        self.tick += 1;
-                        let mut d = vec![0xFF; self.t(1, k)];
-                        d.extend(Card::packet(&self.block(b)));
-                        self.phase = Phase::Emit(d, 0, Box::new(Phase::NextBlock(b + 1)));
-                    }
-                    return;
-                }
-                _ => return,
-            }
         }
     }
     fn feed_frame(&mut self, mosi: u8) {
@@ -370,11 +360,11 @@ impl Card {
         self.tick += 1;
         let back = |b: u64| if multi { Phase::WaitTok(true, b) } else { Phase::Idle };
         if self.crc && crc16(d) != crc {
-            self.phase = Phase::Emit(vec![235], 0, Box::new(back(blk)));
+            self.set_out(vec![235], back(blk));
         } else if blk >= self.nblocks() {
-            self.phase = Phase::Emit(vec![237], 0, Box::new(back(blk)));
+            self.set_out(vec![237], back(blk));
         } else if let Some(code) = self.wres.filter(|c| c & 0x1F != 5) {
-            self.phase = Phase::Emit(vec![code], 0, Box::new(back(blk)));
+            self.set_out(vec![code], back(blk));
         } else {
             let mut a = [0u8; 512];
             a.copy_from_slice(d);
@@ -382,12 +372,35 @@ impl Card {
             self.dirty.push(blk);
             let mut v = vec![self.wres.unwrap_or(229)];
             v.extend(vec![0u8; self.t(2, k)]);
-            self.phase = Phase::Emit(v, 0, Box::new(back(blk + 1)));
+            self.set_out(v, back(blk + 1));
         }
     }
     fn byte(&mut self, mosi: u8) -> u8 {
-        self.settle();
+        if let Some(b) = self.out.pop_front() {
+            self.feed_frame(mosi);
+            return b;
+        }
         match &mut self.phase {
+            Phase::Idle => {
+                self.feed_frame(mosi);
+                255
+            }
+            Phase::NextBlock(b) => {
+                let b = *b;
+                if b < self.nblocks() {
+                    let k = self.tick;
+                    self.tick += 1;
+                    let mut d = vec![0xFF; self.t(1, k)];
+                    d.extend(Card::packet(&self.block(b)));
+                    let first = d.remove(0);
+                    self.set_out(d, Phase::NextBlock(b + 1));
+                    self.feed_frame(mosi);
+                    first
+                } else {
+                    self.feed_frame(mosi);
+                    255
+                }
+            }
             Phase::Recv(multi, blk, got) => {
                 got.push(mosi);
                 if got.len() == 514 {
@@ -406,7 +419,8 @@ impl Card {
                     } else if mosi == 253 && multi {
                         let k = self.tick;
                         self.tick += 1;
-                        self.phase = Phase::Emit(vec![0u8; self.t(3, k)], 0, Box::new(Phase::Idle));
+                        let v = vec![0u8; self.t(3, k)];
+                        self.set_out(v, Phase::Idle);
                     } else {
                         self.feed_frame(mosi);
                     }
@@ -414,17 +428,6 @@ impl Card {
                     self.feed_frame(mosi);
                 }
                 255
-            }
-            _ => {
-                let miso = match &mut self.phase {
-                    Phase::Emit(v, pos, _) if *pos < v.len() => {
-                        *pos += 1;
-                        v[*pos - 1]
-                    }
-                    _ => 255,
-                };
-                self.feed_frame(mosi);
-                miso
             }
         }
     }
@@ -806,6 +809,7 @@ fn main() {
                     reading: false,
                     tick: 0,
                     fbuf: vec![],
+                    out: Default::default(),
                     phase: Phase::Idle,
                     wres: None,
                     st13: None,
